@@ -141,7 +141,7 @@ Definition exB := {| p_id := 2; p_idx := "10"; p_name := "B"; p_events := 8; p_c
 Definition exC := {| p_id := 3; p_idx := "10"; p_name := "C"; p_events := 1032; p_closed := false |}. (* Create + Remove *)
 Definition exD := {| p_id := 4; p_idx := "99"; p_name := "D"; p_events := 1; p_closed := false |}.    (* RunPodSandbox only *)
 Definition ex_ok (ev : Z) (p : plugin) : call string :=
-  {| c_res := Reply (if has_response ev then p_name p else ""); c_dur := 3 |}.
+  {| c_res := Reply (if has_response ev then p_name p else ""); c_dur := 3; c_in_write := false |}.
 
 Example C06_indices : str_ltb "09" "10" = true /\ index_num "09" = 9%Z /\ check_index "1a" = false /\ In "42" all_indices.
 Proof. repeat split; vm_compute; tauto. Qed.
